@@ -311,8 +311,13 @@ class Task(object):
             elif hasattr(item, '__call__'):
                 uptodate.append((item, [], {}))
             elif isinstance(item, tuple):
-                call = item[0]
-                args = list(item[1]) if len(item) > 1 else []
+                try:
+                    call = item[0]
+                    args = list(item[1]) if len(item) > 1 else []
+                except (IndexError, TypeError):
+                    msg = ("%s. task invalid 'uptodate' item '%r'. "
+                           "Must be a tuple (callable, args, kwargs).")
+                    raise InvalidTask(msg % (self.name, item))
                 kwargs = item[2] if len(item) > 2 else {}
                 uptodate.append((call, args, kwargs))
             elif isinstance(item, str):
